@@ -8,7 +8,7 @@ C18 model of libs/p2p/conn (core Lean only), as the code is today.
     a *schedule* (`List Chan`) standing for the choices of `sendPacketMsg` (the least recentlySent/priority rule is one
     such schedule), `recvPacketMsg` (capacity check, append, deliver on EOF = 1).
 (c) handshake — `MakeSecretConnection` over an ideal signature scheme: ephemeral keys, challenge = sorted pair,
-    signature by the long-term key, verification against the presented key.
+    signature by the long-term key, rejection of a nil key and of our own key, verification against the presented key.
 -/
 namespace Model.Conn
 
@@ -241,17 +241,18 @@ def respond (myKey : Key) (myEph : Eph) (remEph : Option Eph) : Option (Chal × 
   | none => none
   | some e => let c := mkChal myEph e; some (c, ⟨some myKey, .good ⟨myKey, c⟩⟩)
 
-/-- second half: `shareAuthSignature` result (`none` = nothing decodable arrived), nil-key check, `VerifyBytes` -/
-def finish (c : Chal) (auth : Option AuthMsg) : Option Key :=
+/-- second half: `shareAuthSignature` result (`none` = nothing decodable arrived), nil-key check, own-key check
+(both ends sign the same challenge, so our own signature sent back proves nothing about the peer), `VerifyBytes` -/
+def finish (myKey : Key) (c : Chal) (auth : Option AuthMsg) : Option Key :=
   match auth with
   | none => none
   | some ⟨none, _⟩ => none
-  | some ⟨some k, s⟩ => if verify k c s then some k else none
+  | some ⟨some k, s⟩ => if k == myKey then none else if verify k c s then some k else none
 
 /-- a whole local run: `some k` = connection established, authenticated remote key `k` -/
 def establish (myKey : Key) (myEph : Eph) (remEph : Option Eph) (auth : Option AuthMsg) : Option Key :=
   match respond myKey myEph remEph with
   | none => none
-  | some (c, _) => finish c auth
+  | some (c, _) => finish myKey c auth
 
 end Model.Conn
